@@ -12,3 +12,14 @@ func SimYield(point string) {
 		f(point)
 	}
 }
+
+// VerifRelayLockHeld reports whether some request currently holds the relay lock of the store.
+// The simulated scheduler runs one goroutine at a time and uses this to avoid resuming a request
+// that would block on the lock while its holder is parked at a yield point.
+func (cs *CacheStorage) VerifRelayLockHeld() bool {
+	if cs.relayMu.TryLock() {
+		cs.relayMu.Unlock()
+		return false
+	}
+	return true
+}
